@@ -25,6 +25,11 @@ CHECKS = {
          "(a) confinement: 2 prefixes x 17 methods x 18 caller names (dot, dot-dot, escaping, leading/trailing/double slash, upper case; both mount arguments) x 11 context scopes (incl. unlimited and names shaped like the prefix): a backend argument that is a valid repository name must be exactly prefix/n, and the backend context scope must equal the model rewrite; (b) listings: all subsets of a sibling universe (foo, foo-x/a, foo/a, ..., fooey/x) x start points x stop-after-k x backend-error-after-j; (c) equivalence: BFS to depth 2 (quick) / 3 (thorough) over histories through Sub(ocimem, prefix) incl. hostile names, compared with the reference registry model by full read sweep in every state, and the backend's sibling repositories must stay bit-identical.",
          "A backend argument that is not a syntactically valid repository name is taken to reach nothing (backends validate names). RequestInfo scopes are not part of the claim.",
          "DESIGN.md 3 C13"),
+ "C14": ("model_checking", "E2-state",
+         "explicit-state BFS over histories through the real wrappers / immutable-tags ocimem with history monitors on every transition",
+         "BFS over operation histories (pushes of equal and different content, image/index manifests incl. nested and mistyped references, same bytes under two media types, mounts, deletes, one chunked upload) through ocifilter.Immutable(ocimem) (depth 3 quick / 4 thorough) and through ocimem in immutable-tags mode (depth 2 / 3, also compared with the reference model), from empty and 4 seeded states, plus closed mini-universes to FIXPOINT. Monitors: first observed (tag -> digest, bytes) must hold in every later state via ResolveTag and GetTag; through Immutable nothing ever retrievable is lost and no delete succeeds; in immutable-tags mode the model-computed transitive closure of every tag stays retrievable. ReadOnly: in every reached backend state every mutating call through the wrapper fails UNSUPPORTED, the backend dump is bit-identical afterwards and all reads equal direct reads.",
+         "Sequential histories only here; the concurrent part of the immutable-tags claim is explored by C08's scheduler harnesses. Bounded universe as C02.",
+         "DESIGN.md 3 C14"),
  "C17": ("exploration", "E4-enum",
          "bounded exhaustive enumeration of all strings up to length 6 over an 11-symbol alphabet plus grammar-directed component products, against hand-written recognisers",
          "Every string of length <= 5 (quick) / <= 6 (thorough) over {a,A,0,.,:,/,@,-,_,[,]} and the product of 17 hosts x 22 repositories x 12 tags x 13 digests (valid and invalid, boundary lengths 128/129, 255/256): no panic from any exported ociref/ociregistry validity function or parser; parse ok => print equals input and each part valid and within its limit; Parse agrees with ParseRelative; every independently valid partition with a host is recovered; predicates equal the independent recogniser on every string incl. empty; routing agreement through ociserver with a recording backend (accepted as repository/tag/digest iff the predicate holds; backend never sees an invalid argument).",
